@@ -9,22 +9,23 @@ git apply $out/patch.diff || { echo "patch does not apply"; exit 2; }
 suite=$(cargo nextest run --workspace --no-fail-fast --offline 2>&1 | grep -E 'Summary' | tail -1)
 echo "suite with patch: $suite"
 # place the demo
+name=seeded_demo
 if [ -f $out/demo.py ]; then echo "python demo: confirm by hand"; exit 0; fi
 loc=$(python3 -c "import json;print(json.load(open('$out/meta.json')).get('demo_location',''))" 2>/dev/null)
 if grep -q "compact_calendar" $out/demo.rs && ! grep -q "crate::" $out/demo.rs; then
-  mkdir -p compact-calendar/tests; cp $out/demo.rs compact-calendar/tests/seeded_demo.rs; filter="-p compact-calendar"
+  mkdir -p compact-calendar/tests; cp $out/demo.rs compact-calendar/tests/seeded_demo.rs; filter="-p compact-calendar --test seeded_demo"; name=""
 elif echo "$loc" | grep -q "opening-hours-syntax"; then
   cp $out/demo.rs opening-hours-syntax/src/tests/seeded_demo.rs; grep -q seeded_demo opening-hours-syntax/src/tests/mod.rs || echo "mod seeded_demo;" >> opening-hours-syntax/src/tests/mod.rs; filter="-p opening-hours-syntax"
 elif echo "$loc" | grep -q "opening-hours-py"; then
   cp $out/demo.rs opening-hours-py/src/tests/seeded_demo.rs; grep -q seeded_demo opening-hours-py/src/tests/mod.rs || echo "mod seeded_demo;" >> opening-hours-py/src/tests/mod.rs; filter="-p opening-hours-py"
 elif echo "$loc" | grep -qE "^opening-hours/tests|/tests/seeded_demo.rs" && ! echo "$loc" | grep -q "src/tests"; then
-  mkdir -p tests; cp $out/demo.rs tests/seeded_demo.rs; filter="-p opening-hours"
+  mkdir -p tests; cp $out/demo.rs tests/seeded_demo.rs; filter="-p opening-hours --test seeded_demo"; name=""
 else
   cp $out/demo.rs opening-hours/src/tests/seeded_demo.rs; grep -q seeded_demo opening-hours/src/tests/mod.rs || echo "mod seeded_demo;" >> opening-hours/src/tests/mod.rs; filter="-p opening-hours"
 fi
-w=$(cargo nextest run $filter --offline --no-fail-fast seeded_demo 2>&1 | grep -E 'Summary|error(\[|:)' | tail -2 | tr '\n' ' ')
+w=$(cargo nextest run $filter --offline --no-fail-fast $name 2>&1 | grep -E 'Summary|error(\[|:)' | tail -2 | tr '\n' ' ')
 echo "demo with patch: $w"
 git apply -R $out/patch.diff
-wo=$(cargo nextest run $filter --offline --no-fail-fast seeded_demo 2>&1 | grep -E 'Summary|error(\[|:)' | tail -2 | tr '\n' ' ')
+wo=$(cargo nextest run $filter --offline --no-fail-fast $name 2>&1 | grep -E 'Summary|error(\[|:)' | tail -2 | tr '\n' ' ')
 echo "demo without patch: $wo"
 git checkout -q -- . ; git clean -fdq -e target
